@@ -603,13 +603,22 @@ class SymCtx:
         return f
 
     def trig(self, which, t):
+        """sin(t) / cos(t) as real *constants* S_t, C_t (one pair per term) with ground axioms: keeping the
+        formulas free of uninterpreted functions lets z3 use nlsat; congruence is added pairwise."""
         key = ("trig", t.get_id())
-        s, c = self.func("sin")(t), self.func("cos")(t)
-        if key not in self.aux:
-            self.aux[key] = t   # remembered: arctan2's injectivity axiom is instantiated on every trig argument
+        got = self.aux.get(key)
+        if got is None:
+            k = len(self.aux)
+            S, C = z3.Real(f"sin!{k}"), z3.Real(f"cos!{k}")
             self.keep.append(t)
-            self.add_hyp(s * s + c * c == 1)
-        return s if which == "sin" else c
+            self.add_hyp(S * S + C * C == 1)
+            for kk, val in list(self.aux.items()):
+                if isinstance(kk, tuple) and kk and kk[0] == "trig":
+                    t2, S2, C2 = val
+                    self.add_hyp(z3.Implies(t == t2, z3.And(S == S2, C == C2)))
+            got = (t, S, C)
+            self.aux[key] = got
+        return got[1] if which == "sin" else got[2]
 
     def opaque(self, op, *operands):
         from .values import Sym
